@@ -124,6 +124,9 @@ func (t *TinyLfu[K, V]) fspec_removeCallback(entry *Entry[K, V]) {
 
 // remove a tracked entry from its region
 func (t *TinyLfu[K, V]) spec_Remove(entry *Entry[K, V], callback bool) {
+	// without the callback nothing outside the policy lists is touched
+	quietunless(callback, "gh.owned", "gh.notified", "gh.now", "Entry.value", "mapdom<map[K]*Entry>", "mapval<map[K]*Entry>", "maplen<map[K]*Entry>",
+		"Entry.meta.wheelPrev", "Entry.meta.wheelNext")
 	reveal("op_clean", "op_weights", "op_flags")
 	requires("inv", sp_policyInv(t))
 	requires("tracked", entry != nil && sp_tracked(t, entry))
